@@ -93,19 +93,24 @@ def run_unit(unit, seed=0, both=False):
         for p in paths:
             o = p.outcome[0]
             res['outcomes'][o] = res['outcomes'].get(o, 0) + 1
+            todo_obs = p.ctx.obligations
             if o == 'unsupported':
                 res['unsupported'].append(p.outcome[1])
-                continue
+                # frame obligations raised BEFORE the construct the front end could not execute stand on their own (the path up to there is real)
+                todo_obs = [ob for ob in p.ctx.obligations if ob.info.get('kind') == 'frame']
+                if not todo_obs:
+                    continue
             if o == 'infeasible':
                 continue
-            res['paths'] += 1
-            res['covers'].extend(p.ctx.covers)
+            if o != 'unsupported':
+                res['paths'] += 1
+                res['covers'].extend(p.ctx.covers)
             missing = [d for d in p.ctx.lemma_deps if not (_LIB or {}).get(d) or not _LIB[d].proved]
             if missing:
                 res['unsupported'].append('path condition uses unproved lemma(s): ' + ', '.join(sorted(missing)))
                 continue
             groups = {}
-            for ob in p.ctx.obligations:
+            for ob in todo_obs:
                 groups.setdefault(len(ob.assumptions), []).append(ob)
             for _, obs in sorted(groups.items()):
                 vs = solve.prove_group(obs[0].assumptions, [ob.goal for ob in obs], seed=seed, both=both,
